@@ -1786,7 +1786,7 @@ SUBCHECKS = [
              'history of 2-5 (2-8) configurations set directly or reached through operators on ONE formula '
              'object: shown members, current_configuration, engine value (and get_value / database-free value) '
              'against the hand-substituted catalog-free formula; ' + _NT, max_skip_fraction=0.3),
-    SubCheck('through', strat_through, judge_through, render, dict(quick=1000, thorough=25000),
+    SubCheck('through', strat_through, judge_through, render, dict(quick=800, thorough=20000),
              'one configuration selected on a structure rich in catalogs whose members are a bare Beta / '
              'Variable / Numeric, then 1-3 operations applied THROUGH the catalogs (change_init_values, '
              'fix_betas, rename_elementary with generated dictionaries and affixes) to the formula with '
